@@ -7,7 +7,10 @@
   segment-level ones (`SPrim`: lookups, NOT_CONFIGURED, provider query, membership check) and the
   flag-level ones (`FPrim`: flag lookup, log line, event), and it is shown that the merge is the
   identity in the model (the prerequisite's scope starts from the enclosing status, and the status
-  rank never decreases), so a whole evaluation is a sequence of `Prim0 = SPrim ∪ FPrim` steps.
+  PRIORITY never decreases — `computeUpdatedBigSegmentsStatus old new` returns `new` unless `old` has
+  a strictly higher priority; this also covers a prerequisite whose last provider answer was `""`
+  and so made a priority-0 status disappear again), so a whole evaluation is a sequence of
+  `Prim0 = SPrim ∪ FPrim` steps.
 -/
 import LDEval.Proofs.Reach
 import LDEval.Proofs.EvalWF
@@ -25,7 +28,7 @@ inductive SPrim (env : Env) : St → St → Prop
       SPrim env st { st with
         bsQueries := st.bsQueries ++ [key]
         cache := st.cache ++ [(key, (p.get key).membership)]
-        status := updateStatus st.status (some (p.get key).status) }
+        status := updateStatus st.status (p.get key).status }
   | memCheck (st : St) (key ref : String) :
       SPrim env st { st with memChecks := st.memChecks ++ [(key, ref)] }
 
@@ -310,9 +313,9 @@ theorem prereqLoop_freach {rec : FlagRec} {env : Env} (hrec : FlagRecF env rec)
           rw [heq] at h2
           have h3 : Star (Prim0 env) st
               { st2 with status := updateStatus st.status st2.status } := by
-            have hrank : statusRank st.status ≤ statusRank st2.status :=
-              reach_status_rank (h1.trans h2).toReach
-            rw [updateStatus_of_rank_le hrank]
+            have hprio : statusPriority st.status ≤ statusPriority st2.status :=
+              reach_status_priority (h1.trans h2).toReach
+            rw [updateStatus_of_priority_le hprio]
             exact h1.trans h2
           split
           · exact h3
@@ -532,7 +535,12 @@ theorem evaluate_reach0 (env : Env) (f : Flag) :
       | done d ok => exact hs d ok st rfl
 
 
-/-! ### Status invariants -/
+/-! ### Status invariants
+
+A provider may answer any status string, `""` included (`BSAnswer.status = none`), so the status can
+disappear again (HEALTHY, then `""`).  The unconditional invariants are therefore stated with
+`statusPriority`; the older "once set it stays set" forms hold for providers that never answer `""`
+(`AnswersNonEmpty`, implied by `AnswersFourConstants`). -/
 
 theorem updateStatus_some_right_isSome (old : Option Status) (s : Status) :
     (updateStatus old (some s)).isSome := by
@@ -540,58 +548,61 @@ theorem updateStatus_some_right_isSome (old : Option Status) (s : Status) :
   | none => rfl
   | some o => simp only [updateStatus]; split <;> rfl
 
+theorem updateStatus_cases (old new : Option Status) :
+    updateStatus old new = new ∨ updateStatus old new = old := by
+  rw [updateStatus_eq]
+  split
+  · right; rfl
+  · left; rfl
+
 theorem updateStatus_some_cases (old : Option Status) (s : Status) :
-    updateStatus old (some s) = some s ∨ updateStatus old (some s) = old := by
-  cases old with
-  | none => left; rfl
-  | some o =>
-    simp only [updateStatus]
-    split
-    · right; rfl
-    · left; rfl
+    updateStatus old (some s) = some s ∨ updateStatus old (some s) = old :=
+  updateStatus_cases old (some s)
 
 theorem statusRank_zero {s : Option Status} (h : statusRank s ≤ 0) : s = none := by
   cases s with
   | none => rfl
   | some s => simp [statusRank] at h
 
-/-- (a) No status ⇒ the provider was never queried. -/
-theorem reach_status_none_queries {env : Env} {st : St} (h : Reach env {} st)
-    (hs : st.status = none) : st.bsQueries = [] := by
-  refine Reach.invariant (I := fun st => st.status = none → st.bsQueries = []) ?_ h (fun _ => rfl) hs
-  intro a b hp ha hb
-  have hr := hp.status_rank
-  rw [hb] at hr
-  have ha' := ha (statusRank_zero hr)
-  cases hp with
-  | query key p _ _ =>
-    have := updateStatus_some_right_isSome a.status (p.get key).status
-    change (updateStatus a.status (some (p.get key).status)) = none at hb
-    rw [hb] at this; cases this
-  | _ => exact ha'
+theorem statusPriority_le_statusRank (s : Option Status) : statusPriority s ≤ statusRank s := by
+  cases s with
+  | none => exact Nat.le_refl _
+  | some s => exact Nat.le_succ _
 
-/-- The membership cache is non-empty only if a status has been set. -/
-theorem reach_cache_status {env : Env} {st : St} (h : Reach env {} st) :
-    st.cache = [] ∨ st.status.isSome := by
-  refine Reach.invariant (I := fun st => st.cache = [] ∨ st.status.isSome) ?_ h (.inl rfl)
-  intro a b hp ha
-  cases hp with
-  | query key p _ _ => exact .inr (updateStatus_some_right_isSome _ _)
-  | setNotConfigured => exact .inr rfl
-  | mergeStatus old =>
-    rcases ha with ha | ha
-    · exact .inl ha
-    · exact .inr (reach_status_some (env := env) (.single (.mergeStatus a old)) ha)
-  | _ => exact ha
-
-/-- (b) The status is at least as bad as every status the provider returned. -/
+/-- (b) The status has at least the priority of every status the provider returned. -/
 theorem reach_status_ge_queried {env : Env} {st : St} (h : Reach env {} st) :
     ∀ k ∈ st.bsQueries, ∃ p, env.bs = some p ∧
-      statusRank (some (p.get k).status) ≤ statusRank st.status := by
+      statusPriority (p.get k).status ≤ statusPriority st.status := by
   refine Reach.invariant (I := fun st => ∀ k ∈ st.bsQueries, ∃ p, env.bs = some p ∧
-      statusRank (some (p.get k).status) ≤ statusRank st.status) ?_ h ?_
+      statusPriority (p.get k).status ≤ statusPriority st.status) ?_ h ?_
   · intro a b hp ha
-    have hr := hp.status_rank
+    have hr := hp.status_priority
+    cases hp with
+    | query key p hbs _ =>
+      intro k hk
+      change k ∈ a.bsQueries ++ [key] at hk
+      rcases List.mem_append.1 hk with hk | hk
+      · obtain ⟨q, hq1, hq2⟩ := ha k hk
+        exact ⟨q, hq1, Nat.le_trans hq2 hr⟩
+      · rw [List.mem_singleton] at hk
+        subst hk
+        exact ⟨p, hbs, statusPriority_updateStatus_right _ _⟩
+    | _ =>
+      intro k hk
+      obtain ⟨q, hq1, hq2⟩ := ha k hk
+      exact ⟨q, hq1, Nat.le_trans hq2 hr⟩
+  · intro k hk; cases hk
+
+/-- (b) for a provider that never answers `""`, in the older rank form (`none` strictly below every
+status): in particular the status is then present as soon as there was a query. -/
+theorem reach_status_rank_ge_queried {env : Env} (hne : AnswersNonEmpty env) {st : St}
+    (h : Reach env {} st) :
+    ∀ k ∈ st.bsQueries, ∃ p, env.bs = some p ∧
+      statusRank (p.get k).status ≤ statusRank st.status := by
+  refine Reach.invariant (I := fun st => ∀ k ∈ st.bsQueries, ∃ p, env.bs = some p ∧
+      statusRank (p.get k).status ≤ statusRank st.status) ?_ h ?_
+  · intro a b hp ha
+    have hr := hp.status_rank hne
     cases hp with
     | query key p hbs _ =>
       intro k hk
@@ -608,17 +619,79 @@ theorem reach_status_ge_queried {env : Env} {st : St} (h : Reach env {} st) :
       exact ⟨q, hq1, Nat.le_trans hq2 hr⟩
   · intro k hk; cases hk
 
-/-- "The status is one that was actually seen": nothing, NOT_CONFIGURED, or the status the
-provider returned for one of the queried keys. -/
+/-- (a) No status ⇒ every status the provider returned had priority 0 (HEALTHY, an unknown string,
+or `""`).  The provider MAY have been queried: HEALTHY followed by `""` leaves no status. -/
+theorem reach_status_none_priority {env : Env} {st : St} (h : Reach env {} st)
+    (hs : st.status = none) :
+    ∀ k ∈ st.bsQueries, ∃ p, env.bs = some p ∧ statusPriority (p.get k).status = 0 := by
+  intro k hk
+  obtain ⟨p, hp, hle⟩ := reach_status_ge_queried h k hk
+  rw [hs] at hle
+  exact ⟨p, hp, Nat.le_zero.1 hle⟩
+
+/-- (a) for a provider that never answers `""`: no status ⇒ the provider was never queried. -/
+theorem reach_status_none_queries {env : Env} (hne : AnswersNonEmpty env) {st : St}
+    (h : Reach env {} st) (hs : st.status = none) : st.bsQueries = [] := by
+  cases hq : st.bsQueries with
+  | nil => rfl
+  | cons k ks =>
+    obtain ⟨p, hp, hle⟩ := reach_status_rank_ge_queried hne h k (by rw [hq]; exact List.mem_cons_self)
+    have hsome := hne p hp k
+    rw [hs] at hle
+    rw [statusRank_zero hle] at hsome
+    cases hsome
+
+/-- For a provider that never answers `""`: the membership cache is non-empty only if a status has
+been set. -/
+theorem reach_cache_status {env : Env} (hne : AnswersNonEmpty env) {st : St}
+    (h : Reach env {} st) : st.cache = [] ∨ st.status.isSome := by
+  refine Reach.invariant (I := fun st => st.cache = [] ∨ st.status.isSome) ?_ h (.inl rfl)
+  intro a b hp ha
+  cases hp with
+  | query key p hbs _ =>
+    right
+    show (updateStatus a.status (p.get key).status).isSome
+    have := hne p hbs key
+    cases hs : (p.get key).status with
+    | none => rw [hs] at this; cases this
+    | some s => exact updateStatus_some_right_isSome _ _
+  | setNotConfigured => exact .inr rfl
+  | mergeStatus old =>
+    rcases ha with ha | ha
+    · exact .inl ha
+    · exact .inr (reach_status_some hne (env := env) (.single (.mergeStatus a old)) ha)
+  | _ => exact ha
+
+/-- "The status is the worst one actually seen, the LAST one among equally bad ones": nothing was
+seen and there is no status; or NOT_CONFIGURED; or the status is the one the provider returned for a
+queried key `k`, no earlier answer has a higher priority and every later answer has a strictly
+lower one.  (An answer `""` that is reported is `status = none` with the third alternative: the
+status disappeared.) -/
 def StatusSeen (env : Env) (status : Option Status) (queries : List String) : Prop :=
-  status = none ∨ status = some .notConfigured ∨
-    ∃ p k, env.bs = some p ∧ k ∈ queries ∧ status = some (p.get k).status
+  (status = none ∧ queries = []) ∨ status = some .notConfigured ∨
+    ∃ p pre k post, env.bs = some p ∧ queries = pre ++ k :: post ∧ status = (p.get k).status ∧
+      (∀ k' ∈ pre, statusPriority (p.get k').status ≤ statusPriority status) ∧
+      (∀ k' ∈ post, statusPriority (p.get k').status < statusPriority status)
+
+/-- The weaker, older reading of `StatusSeen`: nothing, NOT_CONFIGURED, or what the provider
+returned for one of the queried keys. -/
+theorem StatusSeen.weaken {env : Env} {status : Option Status} {queries : List String}
+    (h : StatusSeen env status queries) :
+    status = none ∨ status = some .notConfigured ∨
+      ∃ p k, env.bs = some p ∧ k ∈ queries ∧ status = (p.get k).status := by
+  rcases h with ⟨h, _⟩ | h | ⟨p, pre, k, post, hp, hq, hs, _, _⟩
+  · exact .inl h
+  · exact .inr (.inl h)
+  · exact .inr (.inr ⟨p, k, hp, by rw [hq]; simp, hs⟩)
 
 /-- (c) -/
 theorem star_status_seen {env : Env} {st : St} (h : Star (Prim0 env) {} st) :
     StatusSeen env st.status st.bsQueries := by
-  refine Star.invariant (I := fun st => StatusSeen env st.status st.bsQueries) ?_ h (.inl rfl)
-  intro a b hp ha
+  refine (Star.invariant
+    (I := fun st => Reach env {} st ∧ StatusSeen env st.status st.bsQueries) ?_ h
+    ⟨.refl _, .inl ⟨rfl, rfl⟩⟩).2
+  intro a b hp ⟨hreach, ha⟩
+  refine ⟨.step hreach hp.toPrim, ?_⟩
   cases hp with
   | flag hf => cases hf <;> exact ha
   | seg hs =>
@@ -627,23 +700,94 @@ theorem star_status_seen {env : Env} {st : St} (h : Star (Prim0 env) {} st) :
     | memCheck => exact ha
     | setNotConfigured => exact .inr (.inl rfl)
     | query key p hbs _ =>
-      show StatusSeen env (updateStatus a.status (some (p.get key).status)) (a.bsQueries ++ [key])
-      rcases updateStatus_some_cases a.status (p.get key).status with hu | hu
-      · rw [hu]
-        exact .inr (.inr ⟨p, key, hbs, List.mem_append_right _ (List.mem_singleton.2 rfl), rfl⟩)
-      · rw [hu]
-        rcases ha with ha | ha | ⟨q, k, hq, hk, hs⟩
-        · exact .inl ha
+      show StatusSeen env (updateStatus a.status (p.get key).status) (a.bsQueries ++ [key])
+      by_cases hgt : statusPriority (p.get key).status < statusPriority a.status
+      · rw [updateStatus_of_priority_gt hgt]
+        rcases ha with ⟨hn, _⟩ | ha | ⟨q, pre, k, post, hq, hsplit, hs, hpre, hpost⟩
+        · rw [hn] at hgt; exact absurd hgt (Nat.not_lt_zero _)
         · exact .inr (.inl ha)
-        · exact .inr (.inr ⟨q, k, hq, List.mem_append_left _ hk, hs⟩)
+        · have hqp : q = p := by rw [hq] at hbs; exact Option.some.inj hbs
+          subst hqp
+          refine .inr (.inr ⟨q, pre, k, post ++ [key], hq, ?_, hs, hpre, ?_⟩)
+          · rw [hsplit, List.append_assoc]; rfl
+          · intro k' hk'
+            rcases List.mem_append.1 hk' with hk' | hk'
+            · exact hpost k' hk'
+            · rw [List.mem_singleton] at hk'; subst hk'; exact hgt
+      · have hle : statusPriority a.status ≤ statusPriority (p.get key).status := Nat.le_of_not_lt hgt
+        rw [updateStatus_of_priority_le hle]
+        rcases ha with ⟨_, hq⟩ | ha | _
+        · refine .inr (.inr ⟨p, [], key, [], hbs, by rw [hq], rfl, ?_, ?_⟩) <;>
+            (intro k' hk'; cases hk')
+        · rw [ha] at hle
+          exact .inr (.inl (eq_notConfigured_of_statusPriority hle))
+        · refine .inr (.inr ⟨p, a.bsQueries, key, [], hbs, rfl, rfl, ?_, ?_⟩)
+          · intro k' hk'
+            obtain ⟨q, hq, hle'⟩ := reach_status_ge_queried hreach k' hk'
+            have hqp : q = p := by rw [hq] at hbs; exact Option.some.inj hbs
+            subst hqp
+            exact Nat.le_trans hle' hle
+          · intro k' hk'; cases hk'
 
 /-- (d) Without a provider the only status there can be is NOT_CONFIGURED. -/
 theorem star_no_provider_status {env : Env} {st : St} (hbs : env.bs = none)
     (h : Star (Prim0 env) {} st) : st.status = none ∨ st.status = some .notConfigured := by
-  rcases star_status_seen h with h1 | h1 | ⟨p, _, hp, _⟩
+  rcases star_status_seen h with ⟨h1, _⟩ | h1 | ⟨p, _, _, _, hp, _⟩
   · exact .inl h1
   · exact .inr h1
   · rw [hbs] at hp; cases hp
+
+/-- The status the provider returns for `k` (`none` = `""`, also when there is no provider). -/
+def answerOf (env : Env) (k : String) : Option Status :=
+  match env.bs with
+  | some p => (p.get k).status
+  | none => none
+
+/-- `computeUpdatedBigSegmentsStatus` folded over a sequence of answers, starting from `""`. -/
+def foldStatus (l : List (Option Status)) : Option Status := l.foldl updateStatus none
+
+/-- The exact value: unless NOT_CONFIGURED was recorded (no provider, no generation, or an answer
+NOT_CONFIGURED), the status is Go's `computeUpdatedBigSegmentsStatus` folded over the provider's
+answers in the order of the queries. -/
+theorem star_status_fold {env : Env} {st : St} (h : Star (Prim0 env) {} st) :
+    st.status = some .notConfigured ∨
+      st.status = foldStatus (st.bsQueries.map (answerOf env)) := by
+  refine Star.invariant (I := fun st => st.status = some .notConfigured ∨
+      st.status = foldStatus (st.bsQueries.map (answerOf env))) ?_ h (.inr rfl)
+  intro a b hp ha
+  cases hp with
+  | flag hf => cases hf <;> exact ha
+  | seg hs =>
+    cases hs with
+    | segLookup => exact ha
+    | memCheck => exact ha
+    | setNotConfigured => exact .inl rfl
+    | query key p hbs _ =>
+      show updateStatus a.status (p.get key).status = _ ∨
+        updateStatus a.status (p.get key).status = foldStatus ((a.bsQueries ++ [key]).map (answerOf env))
+      rcases ha with ha | ha
+      · rw [ha]; exact .inl (updateStatus_notConfigured_left _)
+      · right
+        rw [ha]
+        simp [foldStatus, List.foldl_append, answerOf, hbs]
+
+/-- The fold picks the maximal priority. -/
+theorem statusPriority_foldStatus_ge (l : List (Option Status)) :
+    ∀ x ∈ l, statusPriority x ≤ statusPriority (foldStatus l) := by
+  suffices H : ∀ (l : List (Option Status)) (init : Option Status),
+      statusPriority init ≤ statusPriority (l.foldl updateStatus init) ∧
+      ∀ x ∈ l, statusPriority x ≤ statusPriority (l.foldl updateStatus init) from (H l none).2
+  intro l
+  induction l with
+  | nil => intro init; exact ⟨Nat.le_refl _, fun x hx => by cases hx⟩
+  | cons y ys ih =>
+    intro init
+    obtain ⟨h1, h2⟩ := ih (updateStatus init y)
+    refine ⟨Nat.le_trans (statusPriority_updateStatus_left _ _) h1, ?_⟩
+    intro x hx
+    rcases List.mem_cons.1 hx with hx | hx
+    · subst hx; exact Nat.le_trans (statusPriority_updateStatus_right _ _) h1
+    · exact h2 x hx
 
 
 /-! ### Logs: segments never log; the four flag-level sites log on the spot -/
@@ -1077,6 +1221,8 @@ end LD
 #print axioms LD.evaluate_reach0
 #print axioms LD.star_status_seen
 #print axioms LD.reach_status_ge_queried
+#print axioms LD.star_status_fold
+#print axioms LD.reach_status_none_queries
 #print axioms LD.evalFlag_diag
 #print axioms LD.evalBody_silent
 #print axioms LD.finish_congr
